@@ -33,6 +33,10 @@ SOURCES = {
     "local-import-of-stub-name": BODY + "\n\ndef lazy():\n    from shapes16 import Circle  # needed at run time\n    return Circle()\n\n\nLAZY = lazy()\n",
     "future-import-mentioned-in-docstring": '"""Notes: a later version might add `from __future__ import annotations` here."""\nimport os\n' + BODY,
     "future-import-mentioned-in-comment": "# TODO: from __future__ import annotations\nimport os\n" + BODY,
+    # the name bound by a top-level import is bound again later (function-local import, except-branch fallback): the top-level import is still the source's own
+    "name-rebound-in-function": "from shapes16 import Circle\n" + BODY + "\nKEEP = Circle\n\n\ndef lazy():\n    from other16 import Thing as Circle\n    return Circle()\n\n\nLAZY = lazy()\n",
+    "try-fallback-import": "try:\n    from shapes16 import Circle\nexcept ImportError:\n    from other16 import Thing as Circle\n" + BODY + "\nKEEP = Circle\n",
+    "module-alias-rebound": "import shapes16 as sh\n" + BODY + "\nSIDE2 = sh.SIDE\n\n\ndef lazy():\n    import other16 as sh\n    return sh.Thing()\n\n\nLAZY = lazy()\n",
     "self-reference": "from typing import Optional\n\n\nclass Node:\n    def link(self, other):\n        return other\n" + BODY,
 }
 STUBS = {
